@@ -412,6 +412,38 @@ def _sym_estimator():
     return SymEst, lt
 
 
+def real_link_room(room):
+    """estimate() on a generated room with the REAL _find_solutions/_angles_to_poses numerics; only the poses handed to the
+    linking stage are replaced by tagged symbols (keeping the dict insertion order the real code produced).
+    -> (key structure, reply, picks)"""
+    np, sm, ie, gs, lt, ippe_cf, bv = _mods()
+    SymEst, _ = _sym_estimator()
+    Base = ie.LighthouseInitialEstimator
+    seen = {}
+
+    class RoomEst(SymEst):
+        @classmethod
+        def _find_solutions(cls, matched_samples, sensor_positions):
+            return Base._find_solutions.__func__(cls, matched_samples, sensor_positions)
+
+        @classmethod
+        def _angles_to_poses(cls, matched_samples, sensor_positions, bs_positions):
+            poses, cleaned = Base._angles_to_poses.__func__(cls, matched_samples, sensor_positions, bs_positions)
+            seen['keys'] = [list(d.keys()) for d in poses]
+            return _sym_dicts(seen['keys']), cleaned
+    RoomEst.reset(None)
+    matched = [lt.LhCfPoseSample(timestamp=float(i), angles_calibrated={b: synth_angles(np, lt, bv, room['cf'][i], room['bs'][str(b)])
+                                                                        for b in room['vis'][i]}) for i in range(len(room['cf']))]
+    try:
+        with contextlib.redirect_stdout(io.StringIO()), np.errstate(all='ignore'):
+            res, _ = RoomEst.estimate(matched, lt.LhDeck4SensorPositions.positions)
+        out = 'ok %s %s' % ('|'.join('%d=%s' % (b, p.s) for b, p in sorted(res.bs_poses.items())) or '-',
+                            '|'.join(p.s for p in res.cf_poses) or '-')
+    except Exception as e:
+        out = _lh_err(e, lt)
+    return seen.get('keys'), out, _picks_str(RoomEst.picks)
+
+
 def _lh_err(e, lt):
     if isinstance(e, lt.LhException):
         msg = str(e)
@@ -666,7 +698,7 @@ def gen_hypergraph(rng, big=False):
     """key structure of bs_poses_ref_cfs: list of id lists.  Shapes: chain, star, random, two islands, with empties/singletons"""
     nb = rng.randint(1, 9 if big else 7)
     ids = gen_ids(rng, nb)
-    shape = rng.choice(['chain', 'star', 'random', 'random', 'islands', 'dense', 'degenerate'])
+    shape = rng.choice(['chain', 'chain', 'star', 'random', 'random', 'islands', 'islands', 'dense', 'degenerate'])
     samples = []
     if shape == 'chain':
         order = ids[:]
@@ -702,9 +734,9 @@ def gen_hypergraph(rng, big=False):
         if rng.random() < 0.7:
             s = sorted(s)                                      # the order _angles_to_poses produces
         out.append(s)
-        if rng.random() < 0.08:
+        if rng.random() < 0.02:
             out.append([])                                     # a one-station sample yields an empty dict
-    if rng.random() < 0.1:
+    if rng.random() < 0.05:
         out.insert(0, [])
     return out
 
@@ -765,6 +797,19 @@ def correspond(ctx):
                 {'op': 'remaining', 'samples': samples, 'known': known}, ('remaining', sstr, tuple(known)))
         ctx.count('link:' + ' '.join(real.split(' ')[:2]) if real.startswith('err') else 'link:ok')
         ctx.count('link:components=%d' % min(len(components(samples)), 3))
+        ctx.count('link:rounds=%d' % len({p.split(':')[0] for p in picks.split(',') if p != '-'}))
+    # ---- linking behind the REAL IPPE / mirror-selection numerics on generated rooms (key order as the real code produces it)
+    for k in range(60 if thorough else 10):
+        room = gen_room(rng, ncf=rng.randint(3, 12), chain=rng.choice([None, None, 'unlinked']) if k % 3 == 2 else None,
+                        nbs=rng.randint(4, 6) if k % 3 == 2 else None)
+        keys, real, picks = real_link_room(room)
+        if keys is None:
+            ctx.disagree('link-room', str(room['vis']), '-', real)
+            continue
+        sstr = ';'.join(','.join(map(str, s)) or '-' for s in keys) or '-'
+        add('link', 'link %s %s' % (sstr, picks), real, {'op': 'link-room', 'vis': room['vis']}, ('link-room', sstr))
+        ctx.count('linkroom:' + ('ok' if real.startswith('ok') else real))
+        ctx.count('linkroom:dropped=%d' % (len(room['cf']) - len(keys)))
     # ---- solver layout (real solve() with least_squares recorded at the boundary)
     for k in range(600 if thorough else 150):
         guess_ids, samples, ns, ncf = gen_solver_case(rng)
